@@ -4,7 +4,7 @@
 From Coq Require Import NArith ZArith List Bool String.
 From V Require Import Base.UString Model.PatternEq Spec.PatternSemantics
      Proofs.PatternEqCmp Proofs.PatternEqLists Proofs.PatternEqC Proofs.PatternEqDnf Proofs.PatternEqNorm
-     Proofs.PatternEqTop.
+     Proofs.PatternEqTop Proofs.PatternEqO Proofs.PatternEqWitness.
 Import ListNotations.
 
 (* ---- the comparators are lawful (reflexive, antisymmetric, transitive as a total preorder) ---- *)
@@ -117,3 +117,102 @@ Theorem comparison_normalize_sound : forall obj otype H, respects_denotation obj
                            forall x, csem obj otype H e x = csem0 obj otype H e0 x.
 Proof. exact cnormalize_sound. Qed.
 Print Assumptions comparison_normalize_sound.
+
+(* ---- soundness, observation expressions (binding semantics of Appendix A.5): for every
+        interpretation H and EVERY sequence of observations O ---- *)
+
+(* comparator-equal observation expressions produce exactly the same bindings *)
+Theorem cmp_eq_sound_obs : forall obj otype H, respects_denotation obj H ->
+    forall O a b, ocmp a b = Eq -> forall bb, B obj otype H O a bb <-> B obj otype H O b bb.
+Proof. intros obj otype H Hd O a b E. exact (ocmp_Beq obj otype H Hd O a b E). Qed.
+Print Assumptions cmp_eq_sound_obs.
+
+(* mutual refinement implies the same matches *)
+Theorem refinement_preserves_matches : forall obj otype H O a b,
+    oequiv obj otype H O a b -> (matches obj otype H O a <-> matches obj otype H O b).
+Proof. exact oequiv_matches. Qed.
+Print Assumptions refinement_preserves_matches.
+
+Theorem flatten_sound_obs : forall obj otype H O e bb,
+    B obj otype H O (fst (oflatten e)) bb <-> B obj otype H O e bb.
+Proof. intros obj otype H O e. exact (oflatten_sound obj otype H O e). Qed.
+Print Assumptions flatten_sound_obs.
+
+Theorem order_dedupe_sound_obs : forall obj otype H, respects_denotation obj H ->
+    forall O e, oequiv obj otype H O (fst (oorder e)) e.
+Proof. exact oorder_sound. Qed.
+Print Assumptions order_dedupe_sound_obs.
+
+(* absorption: A or (A and B), A or (A followedby B), A or (B followedby A), and their flattened forms
+   (distinct operands for AND, a sub-sequence for FOLLOWEDBY); an absorbing operand may itself be absorbed *)
+Theorem absorb_sound_obs : forall obj otype H, respects_denotation obj H ->
+    forall O e, oequiv obj otype H O (fst (oabsorb e)) e.
+Proof. exact oabsorb_sound. Qed.
+Print Assumptions absorb_sound_obs.
+
+(* distribution of AND and FOLLOWEDBY over OR keeps the bindings exactly *)
+Theorem dnf_sound_obs : forall obj otype H O f e e' ch,
+    odnf f e = Ok (e', ch) -> forall bb, B obj otype H O e' bb <-> B obj otype H O e bb.
+Proof. intros obj otype H O f e e' ch E. exact (odnf_sound obj otype H O f e e' ch E). Qed.
+Print Assumptions dnf_sound_obs.
+
+Theorem normalize_sound : forall obj otype H, respects_denotation obj H -> respects_cidr obj H ->
+    forall O v fuel p n, safe_o v p = true -> onormalize v fuel p = Ok n ->
+                         oequiv obj otype H O n (unparen_o p).
+Proof. exact onormalize_sound. Qed.
+Print Assumptions normalize_sound.
+
+(* THE soundness theorem: patterns reported equivalent match exactly the same observation sequences *)
+Theorem equiv_sound : forall obj otype H, respects_denotation obj H -> respects_cidr obj H ->
+    forall O v fuel p q, safe_o v p = true -> safe_o v q = true -> equiv v fuel p q = Ok true ->
+                         (matches0 obj otype H O p <-> matches0 obj otype H O q).
+Proof. exact PatternEqO.equiv_sound. Qed.
+Print Assumptions equiv_sound.
+
+(* for the repaired special-value pass there is no side condition on the patterns *)
+Theorem equiv_sound_repaired : forall obj otype H, respects_denotation obj H -> respects_cidr obj H ->
+    forall O fuel p q, equiv repaired fuel p q = Ok true -> (matches0 obj otype H O p <-> matches0 obj otype H O q).
+Proof.
+  intros obj otype H Hd Hc O fuel p q E.
+  exact (PatternEqO.equiv_sound obj otype H Hd Hc O repaired fuel p q (safe_o_repaired p) (safe_o_repaired q) E).
+Qed.
+Print Assumptions equiv_sound_repaired.
+
+(* ---- the defective variants of the special-value pass (what /repo does at the pinned commit) ---- *)
+
+(* never fails: refuted for the pinned variant on [ipv4-addr:value = 5], holds there for the repaired one *)
+Theorem never_raises_pinned_refuted : exists p, equiv pinned 8 p p = Err EAttribute.
+Proof. exists w_ip_int. exact pinned_raises. Qed.
+Print Assumptions never_raises_pinned_refuted.
+
+Theorem never_raises_repaired_witness : equiv repaired 8 w_ip_int w_ip_int = Ok true.
+Proof. exact repaired_answers. Qed.
+Print Assumptions never_raises_repaired_witness.
+
+(* sound: refuted for the pinned variant (the side condition safe_o of equiv_sound cannot be dropped):
+   base64 text lower-cased on a registry-key path, regular expression lower-cased *)
+Theorem equiv_sound_pinned_refuted_binary :
+  exists p q obj otype H O,
+    respects_denotation obj H /\ respects_cidr obj H /\ equiv pinned 8 p q = Ok true /\
+    matches0 obj otype H O p /\ ~ matches0 obj otype H O q.
+Proof.
+  exists w_bin_upper, w_bin_lower, unit, regkey_type, (H_bin [65; 66; 67]%N), one_key_object.
+  split; [apply H_bin_respects | split; [apply H_bin_cidr | split; [exact pinned_bin_equiv | exact bin_patterns_differ]]].
+Qed.
+Print Assumptions equiv_sound_pinned_refuted_binary.
+
+Theorem equiv_sound_pinned_refuted_regex :
+  exists p q obj otype H O,
+    respects_denotation obj H /\ respects_cidr obj H /\ equiv pinned 8 p q = Ok true /\
+    matches0 obj otype H O p /\ ~ matches0 obj otype H O q.
+Proof.
+  exists w_re_upper, w_re_lower, unit, regkey_type, (H_str (u "\\D")), one_key_object.
+  split; [apply H_str_respects | split; [apply H_str_cidr | split; [exact pinned_regex_equiv | exact regex_patterns_differ]]].
+Qed.
+Print Assumptions equiv_sound_pinned_refuted_regex.
+
+(* the hypotheses of the soundness theorems are satisfiable by interpretations that do look at the constant *)
+Example respects_denotation_satisfiable : respects_denotation unit (H_bin [65; 66; 67]%N).
+Proof. apply H_bin_respects. Qed.
+Example respects_cidr_satisfiable : respects_cidr unit (H_bin [65; 66; 67]%N).
+Proof. apply H_bin_cidr. Qed.
